@@ -93,6 +93,6 @@ let counts id payload =
 let () =
   iter_cases Sys.argv.(1) (fun id kind payload ->
     match kind with
-    | "region" | "region_spiky" -> if field payload "O" <> "" then region id payload
+    | "region" | "region_flagged" -> if field payload "O" <> "" then region id payload
     | "counts" -> counts id payload
     | _ -> ())
